@@ -197,4 +197,20 @@ META = {
         "stub": STUB_STACK,
         "design_ref": "DESIGN.md section 4, C13",
     },
+    "C10": {
+        "title": "Every invocation gets exactly one terminal reply",
+        "budgets": {"quick": (80000, 70), "thorough": (2500000, 1800)},
+        "variants": ALL_VARIANTS,
+        "rule": ("one run = a real ApplicationSession (callee) on the real client transport (WebSocket or RawSocket) "
+                 "joined over a simulated link to the library's real server transport carrying a scripted dealer; small "
+                 "size limits; up to 9 INVOCATIONs on two registered endpoints (plain / with call details), each with a "
+                 "drawn behaviour out of 13 (value, None, CallResult, un-serializable, oversized, ApplicationError, "
+                 "mapped / unmapped exception, error with un-serializable args, pending result resolved / failed / never, "
+                 "progress then value), several outstanding at once, INTERRUPTs at any point, seeded segmentation of "
+                 "both byte streams; non-trivial = at least one invocation; distinct = hash of (action kind, transport "
+                 "state) sequence"),
+        "real": REAL_STACK + ["autobahn.wamp.protocol ApplicationSession (callee side)"],
+        "stub": ["TCP link, reactor/selector, randomness: as for the WebSocket worlds", "dealer: scripted session on the real server transport"],
+        "design_ref": "DESIGN.md section 4, C10",
+    },
 }
